@@ -154,6 +154,8 @@ func (action actionCommit) handleSingleBatch(c *twoPhaseCommitter, bo *retry.Bac
 				// it means the transaction's commit state is unknown.
 				// We should return the error `ErrResultUndetermined` to the caller
 				// to do the further handling (.i.e disconnect the connection).
+				// Record it as well, so that the keys are not rolled back: the primary may have been committed.
+				c.setUndeterminedErr(errors.New(regionErr.String()))
 				return errors.WithStack(tikverr.ErrResultUndetermined)
 			}
 
